@@ -59,6 +59,44 @@ func lockKind(s ast.Stmt) string {
 	return ""
 }
 
+var callNames map[string]bool
+
+// callOf returns the call a statement consists of (x.f(...), v := x.f(...), _ = x.f(...), return x.f(...)).
+func callOf(s ast.Stmt) *ast.CallExpr {
+	var e ast.Expr
+	switch st := s.(type) {
+	case *ast.ExprStmt:
+		e = st.X
+	case *ast.AssignStmt:
+		if len(st.Rhs) == 1 {
+			e = st.Rhs[0]
+		}
+	case *ast.ReturnStmt:
+		if len(st.Results) == 1 {
+			e = st.Results[0]
+		}
+	}
+	c, _ := e.(*ast.CallExpr)
+	return c
+}
+
+func isNamedCall(s ast.Stmt) bool {
+	if callNames == nil {
+		return false
+	}
+	c := callOf(s)
+	if c == nil {
+		return false
+	}
+	switch f := c.Fun.(type) {
+	case *ast.SelectorExpr:
+		return callNames[f.Sel.Name]
+	case *ast.Ident:
+		return callNames[f.Name]
+	}
+	return false
+}
+
 func hook(kind, site string, line int) *ast.CallExpr {
 	return &ast.CallExpr{
 		Fun: &ast.SelectorExpr{X: ast.NewIdent("verifhook"), Sel: ast.NewIdent("Yield")},
@@ -86,6 +124,10 @@ func rewriteList(fset *token.FileSet, site string, list []ast.Stmt, n *int) []as
 		case "deferunlock":
 			out = append(out, &ast.DeferStmt{Call: hook("unlocked", site, line)}, s)
 		default:
+			if isNamedCall(s) {
+				out = append(out, &ast.ExprStmt{X: hook("call", site, line)})
+				*n++
+			}
 			out = append(out, s)
 		}
 	}
@@ -100,6 +142,17 @@ func main() {
 	root := os.Args[1]
 	for _, arg := range os.Args[2:] {
 		// "file.go#Func1,Func2": only inside those functions (methods by bare name)
+		calls := map[string]bool(nil)
+		if i := strings.Index(arg, "@"); i >= 0 {
+			// "file.go@name1,name2": also a scheduling point ("call:<file>") before every statement that is a call
+			// of a function or method with one of these names (a hand-over to another goroutine, say)
+			calls = map[string]bool{}
+			for _, f := range strings.Split(arg[i+1:], ",") {
+				calls[f] = true
+			}
+			arg = arg[:i]
+		}
+		callNames = calls
 		rel, only := arg, map[string]bool(nil)
 		if i := strings.Index(arg, "#"); i >= 0 {
 			rel, only = arg[:i], map[string]bool{}
